@@ -359,7 +359,7 @@ func (g *Gen) one() Op {
 		}
 		return Op{Kind: "RemoveNode", N: n, P: p}
 	case x < 30:
-		return Op{Kind: "GetNode", N: pick(r, NodesU)}
+		return Op{Kind: "GetNode", N: g.exNode()}
 	case x < 32:
 		return Op{Kind: "GetNodes", Names: g.names(NodesU)}
 	case x < 36:
@@ -378,7 +378,7 @@ func (g *Gen) one() Op {
 		}
 		return Op{Kind: "UpdateNodes", Nodes: l}
 	case x < 41:
-		return Op{Kind: "LoadNodeCert", N: pick(r, NodesU)}
+		return Op{Kind: "LoadNodeCert", N: g.exNode()}
 	case x < 42:
 		return g.listOp()
 	case x < 54:
@@ -400,13 +400,13 @@ func (g *Gen) one() Op {
 		w := g.workload(true)
 		return Op{Kind: "RemoveWorkload", W: &w}
 	case x < 64:
-		return Op{Kind: "GetWorkload", N: pick(r, WIDs)}
+		return Op{Kind: "GetWorkload", N: g.exWl()}
 	case x < 66:
 		return Op{Kind: "GetWorkloads", Names: g.names(WIDs)}
 	case x < 68:
 		return g.listOp()
 	case x < 70:
-		return Op{Kind: "ListNodeWorkloads", N: pick(r, NodesU), Lbl: genFilter(r)}
+		return Op{Kind: "ListNodeWorkloads", N: g.exNode(), Lbl: genFilter(r)}
 	case x < 72:
 		return Op{Kind: "GetDeployStatus", A: pick(r, Apps), E: pick(r, Entries)}
 	case x < 75:
@@ -414,7 +414,7 @@ func (g *Gen) one() Op {
 	case x < 76:
 		return Op{Kind: "DeleteProcessing", Pr: g.proc()}
 	case x < 82:
-		n := pick(r, NodesU)
+		n := g.exNode()
 		p := pick(r, Pods)
 		if nd, ok := g.S.N[n]; ok {
 			p = nd.Pod
@@ -438,9 +438,9 @@ func (g *Gen) one() Op {
 		}
 		return o
 	case x < 84:
-		return Op{Kind: "GetNodeStatus", N: pick(r, NodesU)}
+		return Op{Kind: "GetNodeStatus", N: g.exNode()}
 	case x < 92:
-		id := pick(r, WIDs)
+		id := g.exWl()
 		if g.StatusHeavy && len(g.S.W) > 0 && r.Intn(4) != 0 {
 			ids := make([]string, 0, len(g.S.W))
 			for _, w := range WIDs {
@@ -481,13 +481,40 @@ func (g *Gen) one() Op {
 		g.lastW[id] = o
 		return o
 	case x < 94:
-		return Op{Kind: "GetWorkloadStatus", N: pick(r, WIDs)}
+		return Op{Kind: "GetWorkloadStatus", N: g.exWl()}
 	default:
 		if g.AdvanceStep > 0 {
 			return Op{Kind: "Advance", TTL: g.AdvanceStep}
 		}
 		return Op{Kind: "Advance", TTL: int64(r.Intn(6)) + 1}
 	}
+}
+
+// exNode / exWl prefer entities that exist (2 of 3 draws).
+func (g *Gen) exNode() string {
+	var ex []string
+	for _, n := range NodesU {
+		if g.S.Keys["/node/"+n] {
+			ex = append(ex, n)
+		}
+	}
+	if len(ex) > 0 && g.R.Intn(3) != 0 {
+		return pick(g.R, ex)
+	}
+	return pick(g.R, NodesU)
+}
+
+func (g *Gen) exWl() string {
+	var ex []string
+	for _, w := range WIDs {
+		if g.S.Keys["/workloads/"+w] {
+			ex = append(ex, w)
+		}
+	}
+	if len(ex) > 0 && g.R.Intn(3) != 0 {
+		return pick(g.R, ex)
+	}
+	return pick(g.R, WIDs)
 }
 
 func (g *Gen) listOp() Op {
